@@ -483,6 +483,67 @@ func extra11C17(c *Ctx) {
 		c.Check(rule, f.Key()+" non-error return only after the final record", c.Pos(ex.Return), ok, "`"+core.ExprString(ex.Return.Results[0])+"` is returned where neither the final record was delivered nor the context is known to be done")
 	}
 	c.Expect(rule, "non-error returns of Completion", nOK, 2)
+
+	rule = "C17-R21"
+	c.Rule(rule, "streamed and single answers number their tool calls alike: in ChatHandler every list that Model.parseToolCalls returns gets the Function.Index of its elements stored before it is put into a response (the streamed branch counts across chunks, the single branch by position) — without the stores in the single branch every call of a non-streamed answer carries index 0 while the streamed ones carry 0, 1, 2 …")
+	if hf := c.Fn(rule, "server", "Server.ChatHandler"); hf != nil {
+		hinfo := hf.Info()
+		n := 0
+		ast.Inspect(hf.Body, func(nd ast.Node) bool {
+			var lhs []ast.Expr
+			var rhs ast.Expr
+			switch st := nd.(type) {
+			case *ast.AssignStmt:
+				if len(st.Rhs) == 1 {
+					lhs, rhs = st.Lhs, st.Rhs[0]
+				}
+			default:
+				return true
+			}
+			call, isC := ast.Unparen(rhs).(*ast.CallExpr)
+			if !isC || core.CalleeName(hinfo, call) != "server.Model.parseToolCalls" || len(lhs) < 1 {
+				return true
+			}
+			id, isId := lhs[0].(*ast.Ident)
+			if !isId {
+				return true
+			}
+			v := hinfo.ObjectOf(id)
+			n++
+			// the enclosing statement list in which the result lives: the if statement of `if x, ok := …; ok`
+			var scope ast.Node = hf.Body
+			for _, anc := range ancestorsOf(hf.Body, nd) {
+				if ifs, isIf := anc.(*ast.IfStmt); isIf && ifs.Init == nd {
+					scope = ifs
+				}
+			}
+			stored := false
+			ast.Inspect(scope, func(m ast.Node) bool {
+				as, isAs := m.(*ast.AssignStmt)
+				if !isAs {
+					if inc, isInc := m.(*ast.IncDecStmt); isInc {
+						_ = inc
+					}
+					return true
+				}
+				for _, l := range as.Lhs {
+					se, isSel := ast.Unparen(l).(*ast.SelectorExpr)
+					if !isSel || se.Sel.Name != "Index" {
+						continue
+					}
+					if p := core.PathOf(hinfo, se); p.Valid() && p.Root == v {
+						stored = true
+					} else if core.UsesObj(hinfo, se.X, v) {
+						stored = true
+					}
+				}
+				return true
+			})
+			c.Check(rule, hf.Key()+" parsed tool calls are numbered", c.Pos(call), stored, "the list returned by parseToolCalls goes into the response without its elements' Function.Index having been stored")
+			return true
+		})
+		c.Expect(rule, "parseToolCalls results in ChatHandler", n, 2)
+	}
 }
 
 // ancestorsOf returns the chain of nodes from root down to (excluding) n.
@@ -739,6 +800,18 @@ func extra11C13(c *Ctx) {
 		c.Undecided(rule, "anchor:names.Name.n", "-", "anchor lost")
 		return
 	}
+	// the statements that assign the namespace part (the slash case, however it is spelled)
+	var nsStores []core.Loc
+	ast.Inspect(f.Body, func(nd ast.Node) bool {
+		if as, isAs := nd.(*ast.AssignStmt); isAs {
+			for _, l := range as.Lhs {
+				if se, isSel := l.(*ast.SelectorExpr); isSel && core.FieldVar(info, se) == fNS {
+					nsStores = append(nsStores, g.Locate(as))
+				}
+			}
+		}
+		return true
+	})
 	nRet := 0
 	for _, ex := range g.Returns() {
 		if len(ex.Return.Results) != 1 {
@@ -747,28 +820,20 @@ func extra11C13(c *Ctx) {
 		if _, isLit := ast.Unparen(ex.Return.Results[0]).(*ast.CompositeLit); isLit {
 			continue
 		}
-		// only the returns of the case that assigned host and namespace
-		var inSlash *ast.CaseClause
-		for _, anc := range ancestorsOf(f.Body, ex.Return) {
-			if cc, isCC := anc.(*ast.CaseClause); isCC {
-				for _, st := range cc.Body {
-					if as, isAs := st.(*ast.AssignStmt); isAs {
-						for _, l := range as.Lhs {
-							if se, isSel := l.(*ast.SelectorExpr); isSel && core.FieldVar(info, se) == fNS {
-								inSlash = cc
-							}
-						}
-					}
-				}
+		// only the returns behind a store to the namespace part
+		var store core.Loc
+		for _, st := range nsStores {
+			if g.Dominates(st, ex.Loc) {
+				store = st
 			}
 		}
-		if inSlash == nil {
+		if !store.Valid() {
 			continue
 		}
 		nRet++
 		ok := false
 		for _, cb := range g.CondBlocks() {
-			if cb.Cond == nil || !within(inSlash, cb.Cond) {
+			if cb.Cond == nil {
 				continue
 			}
 			tests := false
@@ -779,12 +844,12 @@ func extra11C13(c *Ctx) {
 				return true
 			})
 			cl := g.CondLoc(cb.B)
-			if !tests || !g.Dominates(cl, ex.Loc) {
+			if !tests || !g.Dominates(store, cl) || !g.Dominates(cl, ex.Loc) {
 				continue
 			}
 			for _, zr := range g.Returns() {
 				if len(zr.Return.Results) == 1 {
-					if _, isLit := ast.Unparen(zr.Return.Results[0]).(*ast.CompositeLit); isLit && g.ReachesAvoiding(cl, zr.Loc, ex.Loc) && within(inSlash, zr.Return) {
+					if _, isLit := ast.Unparen(zr.Return.Results[0]).(*ast.CompositeLit); isLit && g.ReachesAvoiding(cl, zr.Loc, ex.Loc) && g.Dominates(cl, zr.Loc) {
 						ok = true
 					}
 				}
